@@ -14,6 +14,8 @@ try:
     while subprocess.run("pgrep -f 'cargo buil[d] --offline --quiet' >/dev/null", shell=True).returncode == 0:
         time.sleep(1.0)                 # somebody is building from /repo right now
     rc = subprocess.run('git -C /repo apply ' + patch, shell=True).returncode
+    if rc != 0:     # /repo has moved on since the change was made (later fix: commits): merge it in, keep the index clean
+        rc = subprocess.run('git -C /repo apply --3way %s && git -C /repo reset -q' % patch, shell=True).returncode
     assert rc == 0, 'patch does not apply'
     p = subprocess.run('VERIF_SEEDRUN=1 ./check %s %s' % (prop, tier), shell=True, cwd='/verif', stdout=subprocess.PIPE, stderr=subprocess.STDOUT)
     out = p.stdout.decode(errors='replace')
